@@ -486,17 +486,19 @@ THOROUGH_COMBOS = [(True, False, True), (True, True, True)]
 
 
 def plan(lib, tier, seed, quick_n, lengths_quick=(1, 3), lengths_thorough=(1, 3), combos_quick=None, extra=None, names='ABC',
-         combos_thorough=None, quick_all_lengths=False, pin_c_quick=False):
+         combos_thorough=None, quick_all_lengths=False, pin_c_quick=False, always=()):
     """[(extra_pre list)] - quick: quick_n skeletons (seeded rotation; all if quick_n >= len(lib)), one name length and one
     option combination each (both rotate with the seed; length 1 is where generated names A, B, ... can collide with the
     program's own); thorough: the whole library x every length x every option combination."""
     import random
     n = len(lib)
     ks = list(range(n))
+    core = []
     if tier == 'quick':
         rnd = random.Random(seed)
         rnd.shuffle(ks)
-        ks = sorted(ks[:quick_n])
+        core = [k for k in range(n) if lib[k][0] in always]     # skeletons every quick run keeps, whatever the seed
+        ks = sorted(core + [k for k in ks if k not in core][:max(0, quick_n - len(core))])
         combos = combos_quick or [OPTION_COMBOS[0], OPTION_COMBOS[1]]
     else:
         combos = combos_thorough or THOROUGH_COMBOS
@@ -504,6 +506,8 @@ def plan(lib, tier, seed, quick_n, lengths_quick=(1, 3), lengths_thorough=(1, 3)
     for i, k in enumerate(ks):
         if tier == 'quick' and quick_all_lengths:
             todo = [(L, combos[(k // 2 + seed + j) % len(combos)]) for j, L in enumerate(lengths_quick)]
+        elif tier == 'quick' and k in core:
+            todo = [(lengths_quick[(k + seed) % len(lengths_quick)], combos[0])]     # the default options (locals renamed, globals not)
         elif tier == 'quick':
             todo = [(lengths_quick[(k + seed) % len(lengths_quick)], combos[(k // 2 + seed) % len(combos)])]
         else:
